@@ -478,6 +478,33 @@ def _guarded_limit_through_callers(mod, fn, name, depth=0):
     return best
 
 
+def unsigned_negation_lint(chk, repo, rule, paths):
+    """C arithmetic on unsigned integers is modular: `-n` of an `unsigned int n` is 2^32 - n, not a negative number, and stays so when it is then multiplied by a double.
+    In the compiled sources no unary minus may be applied to a variable declared with an unsigned C integer type of the rank of int or above (narrower unsigned types are
+    promoted to a signed int first and negate correctly)."""
+    import glob, os
+    nfn = 0
+    for pat in paths:
+        for path in sorted(glob.glob(os.path.join(repo.root, pat), recursive=True)):
+            rel = os.path.relpath(path, repo.root)
+            mod = repo.by_path(rel)
+            if getattr(mod, 'facts', None) is None:
+                continue
+            offenders = []
+            for fn in [x for x in ast.walk(mod.tree) if isinstance(x, ast.FunctionDef)]:
+                nfn += 1
+                types = _c_types(mod, fn)
+                uns = {n_ for n_, t_ in types.items() if ' '.join(str(t_).replace('const ', '').split()) in ('unsigned int', 'unsigned long', 'unsigned long long', 'size_t', 'uint32_t', 'uint64_t')}          # (unsigned char / short are promoted to a signed int before the minus: no wrap)
+                if not uns: continue
+                for x in ast.walk(fn):
+                    if isinstance(x, ast.UnaryOp) and isinstance(x.op, ast.USub) and isinstance(x.operand, ast.Name) and x.operand.id in uns:
+                        offenders.append(f'{fn.name} line {x.lineno}: `-{x.operand.id}` with `{x.operand.id}` declared {types[x.operand.id]}: the negation wraps around (2^N - value)')
+            chk.ob(rule, f'{rel}: no unary minus is applied to an unsigned C integer', not offenders, '; '.join(offenders[:3]), rel, key=f'{rule}|{rel}',
+                   method='declared C types of locals and parameters (Cython front-end) x unary minus sites')
+    if nfn < 5:
+        raise AnalysisError(f'unsigned-negation lint for {rule}: only {nfn} functions scanned')
+
+
 def index_width_lint(chk, repo, rule, paths):
     """In the compiled sources a `for i in range(n)` whose index is declared with a narrower C integer type than its bound wraps around (or never terminates) as soon as the bound
     exceeds the index type's range: every loop index must be at least as wide as every integer variable its bound is computed from."""
@@ -870,6 +897,12 @@ def int_power_lint(chk, repo, rule, paths, floor_funcs=1):
             mod = repo.by_path(rel)
             offenders = []
             for fn in [x for x in ast.walk(mod.tree) if isinstance(x, ast.FunctionDef)]:
+                # np.reciprocal keeps the dtype of its argument in compiled and interpreted code alike: the reciprocal of an integer (array) is 0
+                pr_ = {a.arg for a in fn.args.args + fn.args.kwonlyargs}
+                for c_ in ast.walk(fn):
+                    if isinstance(c_, ast.Call) and ast.unparse(c_.func).split('.')[-1] == 'reciprocal' and c_.args and isinstance(c_.args[0], ast.Name) and c_.args[0].id in pr_ \
+                            and not any(role in c_.args[0].id for role in _SMALL_INT_ROLES):
+                        offenders.append(f'{fn.name} line {c_.lineno}: `{ast.unparse(c_)[:50]}` is 0 in integer arithmetic when {c_.args[0].id} is given as an integer (np.reciprocal keeps the integer type)')
                 if not any('jit' in ast.unparse(d_) for d_ in fn.decorator_list):
                     continue
                 nf += 1
